@@ -47,7 +47,9 @@ def gen_spec(rng, small=False):
         files.append([nm, size])
     spec = dict(
         b9seed=rng.randrange(1 << 20), dseed=rng.randrange(1 << 30), method=method, mode=mode, uses_seed=uses_seed,
-        program_id=(0x00040010 if mode == 'fixed' and rng.random() < 0.5 else 0x00040000) << 32 | rng.getrandbits(32),
+        # title category: any 16-bit word; the System bit (0x10) alone or together with other bits decides the fixed key
+        program_id=(0x0004 << 48) | (rng.choice([0x0000, 0x0010, 0x0010, 0x0030, 0x001B, 0x009B, 0x00DB, 0x0138, 0x0002, 0x8000, 0x800F,
+                                                 rng.getrandbits(16)]) << 32) | rng.getrandbits(32),
         partition_id=rng.getrandbits(64),
         extheader=rng.random() < 0.6, logo=rng.choice([None, 0x10, 0x200, 0x3FF]), plain=rng.choice([None, 5, 0x200]),
         exefs=None if (rng.random() < 0.1 and not small) else files, slots=rng.sample(range(10), nfiles),
